@@ -53,14 +53,19 @@ Proof. vm_compute. split; reflexivity. Qed.
     behind the EnableFeeShare guard — the shape modelled by [Model.per_recipient],
     [Model.fee_pay_logic], [Model.pay_all], [Model.ante].
     Normal form of the extractor: R receiver, P<i> i-th parameter, locals inlined, loop variable =
-    elem(ranged expression); independent of local names, early returns, range vs index loops. *)
+    elem(ranged expression); a private field of the receiver is printed by its declared type
+    (R.BankKeeper, R.IDevGasKeeper); the private helpers are found by what they do and printed by
+    role (settle = calls SendCoinsFromModuleToAccount, payout = calls settle, recipients =
+    asserts *MsgExecuteContract, allowed = first argument of FeePayLogic in settle) — each role
+    must have exactly one candidate ([ante_lookup_notes] empty).  Independent of local / private
+    names, method vs plain helper, import aliases, early returns, range vs index loops. *)
 Theorem C18_payout_formula_as_modelled :
   reward_coin = "sdk.NewCoin(elem(P0.Sort()).Denom,P1.MulInt(elem(P0.Sort()).Amount).QuoInt64(int64(P2)).RoundInt())" /\
-  send_call = "R.bankKeeper.SendCoinsFromModuleToAccount(P0,authtypes.FeeCollectorName,elem(P1),FeePayLogic(getAllowedFees(P2,P3),P2.DeveloperShares,len(P1)))" /\
+  send_call = "R.BankKeeper.SendCoinsFromModuleToAccount(P0,authtypes.FeeCollectorName,elem(P1),FeePayLogic(allowed(P2,P3),P2.DeveloperShares,len(P1)))" /\
   send_loop = "range(P1)" /\ send_call_sites = 1 /\
   list_eqb settle_args
-    ["P0"; "R.getWithdrawAddressesFromMsgs(P0,P1.GetMsgs())#0"; "R.devgasKeeper.GetParams(P0)"; "P1.GetFee()"] = true /\
-  payout_guard_enabled = true.
+    ["P0"; "recipients(P1.GetMsgs())#0"; "R.IDevGasKeeper.GetParams(P0)"; "P1.GetFee()"] = true /\
+  payout_guard_enabled = true /\ ante_lookup_notes = [].
 Proof. vm_compute. repeat split; reflexivity. Qed.
 
 (** getAllowedFees adds a fee coin at most once, however often AllowedDenoms names its denom
@@ -74,8 +79,8 @@ Proof. vm_compute. split; reflexivity. Qed.
     carriers, no recursion, no other helper. *)
 Theorem C18_recipients_top_level_only :
   list_eqb recipients_asserted_types ["*wasmtypes.MsgExecuteContract"] = true /\
-  list_eqb recipients_ranges ["P1"] = true /\
-  list_eqb recipients_local_calls ["R.devgasKeeper.GetFeeShare"] = true.
+  list_eqb recipients_ranges ["param([]sdk.Msg)"] = true /\
+  list_eqb recipients_local_calls ["IDevGasKeeper.GetFeeShare"] = true.
 Proof. vm_compute. repeat split; reflexivity. Qed.
 
 (** Every registry handler reads the params first, checks the authority (factory rule or
